@@ -26,6 +26,9 @@ def writers(n, k, v):
         ("default", ": ${%s:=%s}" % (n, v)), ("default-elem", ": ${%s[%s]:=%s}" % (n, k, v)),
         ("mapfile", "mapfile -t %s <<< %s" % (n, v)), ("getopts", "getopts ab %s -a" % n),
         ("temp-ext", "%s=%s /bin/true" % (n, v)), ("temp-builtin", "%s=%s :" % (n, v)),
+        ("temp-func", "%s=%s __g" % (n, v)), ("temp-func-w", "%s=%s __h" % (n, v)), ("temp-func-l", "%s=%s __k" % (n, v)),
+        ("temp-read", "%s=%s read __r <<< x" % (n, v)), ("temp-append", "%s+=%s :" % (n, v)),
+        ("temp-elem", "%s[%s]=%s /bin/true" % (n, k, v)),
         ("export=", "export %s=%s" % (n, v)), ("declare=", "declare %s=%s" % (n, v)), ("readonly=", "readonly %s=%s" % (n, v)),
         ("unset", "unset %s" % n), ("unset-elem", "unset '%s[%s]'" % (n, k)),
     ]
@@ -84,8 +87,11 @@ def gen_programs(ctx):
     return progs
 
 
+FUNCS = "__g() { :; }\n__h() { va=inH; vb+=inH; }\n__k() { local va=inK; vb+=inK; }\n"
+
+
 def script_of(p):
-    lines = []
+    lines = [FUNCS.rstrip("\n")]
     if p["infn"]:
         lines.append("__f() {")
     for kind, text in p["steps"]:
@@ -103,7 +109,8 @@ def canon(line):
     flags = "".join(sorted(set(m.group(1)) & set("aAcilrux")))
     v = m.group(3)
     if v is None:
-        return (m.group(2), flags, None)
+        # a declared array without elements prints as `declare -a n` or `declare -a n=()`: the same content
+        return (m.group(2), flags, () if set(flags) & set("aA") else None)
     if v.startswith("("):
         items = re.findall(r"\[((?:[^\]\\]|\\.)*)\]=\"((?:[^\"\\]|\\.)*)\"", v)
         items = [(k.strip('"'), x) for k, x in items]
@@ -162,6 +169,10 @@ def classify(p, i, a, b):
     steps = p["steps"]
     kind, text = steps[i] if i < len(steps) else ("end", "")
     n = target(text)
+    for cand in (N, M):      # the name whose binding differs (a function body may have written the other one)
+        if (binding(a, cand) if a else None) != (binding(b, cand) if b else None):
+            n = cand if (a is not None and b is not None) else n
+            break
     xa, xb = (binding(a, n) if a else None), (binding(b, n) if b else None)
     fa, fb = (xa[1] if xa else ""), (xb[1] if xb else "")
     prev_i = any(re.search(r"(declare|local)[^;]*-[A-Za-z]*i[A-Za-z]* +(-[A-Za-z]+ +)*%s\\b" % n, t) for _, t in steps[:i + 1])
@@ -182,10 +193,16 @@ def classify(p, i, a, b):
         return "KF-C09-unset-elem-scalar"
     if kind in ("export=", "decl", "declare=", "redecl") and ("r" in fa and "r" in fb) and content_of(xa) == content_of(xb) and fa != fb:
         return "KF-C09-readonly-attr-partial"
-    if kind in ("decl", "redecl") and re.search(r" -[A-Za-z]*[aA]", text) and xb is not None and xb[2] is None and xa is not None:
+    if kind in ("decl", "redecl") and re.search(r" -[A-Za-z]*[aA]", text) and xb is not None and xb[2] in (None, ()) and xa is not None:
         return "KF-C09-declare-array-on-unset"
-    if set(fa) & set("clu") and kind in ("append", "elem+") and set(fa) & set("aA") and fa == fb:
+    if kind == "temp-append" and set(fa) & set("aA"):
+        return "KF-C09-temp-append-array"
+    if set(fa) & set("clu") and kind in ("append", "elem+", "temp-func-w", "temp-func-l") and set(fa) & set("aA") and fa == fb:
         return "KF-C09-transform-append-elem"
+    t = target(text)
+    ta, tb = (binding(a, t) if a else None), (binding(b, t) if b else None)
+    if kind.startswith("temp") and (("r" in (ta[1] if ta else "")) or ("r" in (tb[1] if tb else ""))):
+        return "KF-C09-readonly-temp-shadow"
     if (kind.startswith("arith") or kind == "for") and p["infn"] and "r" in fb:
         return "KF-C09-readonly-error-abort"
     return None
